@@ -38,7 +38,8 @@ RULE = ('each case evaluates one identity at one point. Exact tier: entries '
         'entries non-zero and pairwise distinct / vectors without zero '
         'component / every piecewise region.'
         ' Round 13 added: affine, transposed-affine and block-diagonal'
-        ' matrices for the inverse.')
+        ' matrices for the inverse.'
+        ' Round 14 added: tiny regular determinants.')
 ANCHORS = [
     'desper/math.py::clamp',
     'desper/math.py::Vec2.__add__', 'desper/math.py::Vec2.lerp',
